@@ -112,6 +112,13 @@ CLAIMED = {
    note="S3/SFTP/GCS are not reachable offline. Keep-alives are off on the scripted server to exclude net/http's own transparent retries.",
    technique="TLA+ spec of the retry/outcome function checked by TLC; trace validation of recorded client calls",
    design="4/C14"),
+ "C16": dict(
+   text="LocalStoreFS.tla states what prune and verify must and must not remove (PruneOK, VerifyOK) over a store directory as a set of typed files; TLC checks the "
+        "walk as coded against PruneOK for every small directory. Random real directories (valid/invalid chunks of both formats, temporary files, junk, "
+        "chunk-named files in foreign directories) are handed to the real Prune/Verify (library and CLI) and what disappeared / was reported is judged by the spec.",
+   note="Local stores only; S3 and SFTP prune/verify are not reachable offline.",
+   technique="TLA+ spec checked by TLC; trace validation of real prune/verify runs",
+   design="4/C16"),
 }
 
 NOT_YET = "check not built yet in this round (planned in DESIGN.md section 4)"
